@@ -42,6 +42,7 @@ T0 = 1_000_000          # logical start time (real mtimes are > 1e9, so "written
 REAL = 1e9
 
 _real_time_module = None
+_real_time_fn = None
 
 
 class Clock:
@@ -183,12 +184,18 @@ class World:
         self.base = "/radicale" if prefix else ""
         self.env = {"script": {"SCRIPT_NAME": "/radicale"}, "xscript": {"HTTP_X_SCRIPT_NAME": "/radicale"}}.get(prefix, {})
         import radicale.storage.multifilesystem.cache as cache_mod
-        global _real_time_module
+        import time as time_mod
+        global _real_time_module, _real_time_fn
         if _real_time_module is None:
-            _real_time_module = cache_mod.time if not isinstance(cache_mod.time, Clock) else __import__("time")
+            _real_time_module = cache_mod.time if not isinstance(cache_mod.time, Clock) else time_mod
+            _real_time_fn = time_mod.time
         self.cache_mod = cache_mod
+        self.time_mod = time_mod
         self.clock = Clock()
         cache_mod.time = self.clock
+        # every reader of the wall clock in this process sees the logical clock while the world exists (any storage
+        # module may consult time.time(), e.g. history.py); file mtimes are re-stamped by normalise()
+        time_mod.time = self.clock.time
         self.cfg = dict(sub_item=sub_item, sub_hist=sub_hist, sub_tok=sub_tok, max_age=max_age, prefix=prefix)
         self.srv = impl.Server({
             "auth": {"type": "none"}, "rights": {"type": "authenticated"},
@@ -205,6 +212,7 @@ class World:
     # ------------------------------------------------------------------ plumbing
     def close(self):
         self.cache_mod.time = _real_time_module
+        self.time_mod.time = _real_time_fn
         self.srv.close()
 
     def __enter__(self):
